@@ -129,6 +129,9 @@ func init() {
 			plans = append(plans, p)
 		}
 		got, err := c19lib.FetchKeys(local, localIDs, plans, true)
+		if err == c19lib.ErrTimeout {
+			return args, B("timeout") // FetchKeys did not return: deadlock
+		}
 		if err != nil {
 			return args, B("err")
 		}
@@ -159,10 +162,63 @@ func init() {
 			return args, B(c19lib.FetchStress(seed, 4, 6))
 		case "transport":
 			return args, B(c19lib.TransportStress(seed, 8, 500))
+		case "transport-fresh":
+			return args, B(c19lib.TransportFreshStress(8, 600))
 		case "event":
 			return args, B(c19lib.EventStress(4))
 		}
 		return args, B("unknown scenario")
+	})
+
+	// [size; n] -> max=..;final=..
+	RegisterImpl("C19.dns_barrier", func(args [][]byte) ([][]byte, []byte) {
+		size, _ := strconv.Atoi(string(args[0]))
+		n, _ := strconv.Atoi(string(args[1]))
+		mx, fin, note := c19lib.DNSBarrier(size, n)
+		out := fmt.Sprintf("max=%d;final=%d", mx, fin)
+		if note != "" {
+			out += ";" + note
+		}
+		return args, B(out)
+	})
+
+	// [op...]: G|name, A|seconds, R on one goroutine; tokens number the transports in the
+	// order they were first handed out
+	RegisterImpl("C19.transport_seq", func(args [][]byte) ([][]byte, []byte) {
+		tr := fclient.VerifNewTransports()
+		tokens := map[interface{}]int{}
+		tok := func(t interface{}) int {
+			if _, ok := tokens[t]; !ok {
+				tokens[t] = len(tokens)
+			}
+			return tokens[t]
+		}
+		content := func() string {
+			var l []string
+			for n, t := range tr.Snapshot() {
+				l = append(l, n+"="+strconv.Itoa(tok(t)))
+			}
+			sort.Strings(l)
+			return strings.Join(l, ",")
+		}
+		var lines []string
+		for _, opb := range args {
+			f := strings.Split(string(opb), "|")
+			switch {
+			case f[0] == "G" && len(f) == 2:
+				lines = append(lines, "t"+strconv.Itoa(tok(tr.Get(f[1])))+";"+content())
+			case f[0] == "A" && len(f) == 2:
+				s, _ := strconv.Atoi(f[1])
+				tr.Age(time.Duration(s) * time.Second)
+				lines = append(lines, "aged;"+content())
+			case f[0] == "R":
+				tr.Reap()
+				lines = append(lines, "reaped;"+content())
+			default:
+				lines = append(lines, "badop")
+			}
+		}
+		return args, B(strings.Join(lines, "\n"))
 	})
 
 	// [scenario] in a binary built with -race
@@ -294,7 +350,7 @@ func genC19(c *Ctx) {
 		}
 		c.Run("C19.fetch_keys", a, "C19.fetch_keys", "C19.prop.fetch_keys", desc)
 	}
-	for _, n := range []int{0, 1, 2, 63, 64, 65, 130} {
+	for _, n := range []int{0, 1, 2, 63, 64, 65, 130, 200} { // a call that does not return becomes the observable "timeout"
 		fetch(n, fmt.Sprintf("%d servers (worker limit 64)", n))
 	}
 	for k := 0; k < c.Scale(60, 600); k++ {
@@ -302,15 +358,41 @@ func genC19(c *Ctx) {
 	}
 
 	// ---- (c) stress, invariants asserted in Go after every operation
-	for _, sc := range []string{"dns", "dns-size1", "dns-long-lived", "fetch", "transport", "event"} {
+	// N concurrent misses for distinct hosts, all held inside the resolver, size < N
+	for _, sn := range [][2]int{{1, 2}, {1, 8}, {2, 3}, {3, 12}, {4, 4}, {5, 3}, {8, 64}} {
+		c.Run("C19.dns_barrier", Args(strconv.Itoa(sn[0]), strconv.Itoa(sn[1])), "C19.dns_barrier", "C19.prop.dns_barrier", "barrier resolver")
+		c.Count("dns_barrier")
+	}
+	// transport cache, one goroutine: same transport per name, reaping at 299 / 300 / 301 s
+	tseq := func(ops ...string) {
+		c.Run("C19.transport_seq", Args(ops...), "C19.transport_seq", "", "transport sequence")
+		c.Count("transport_seq")
+	}
+	tseq("G|a", "G|b", "G|a", "R", "A|299", "R", "G|a", "A|1", "R", "G|b", "G|a", "A|301", "R", "R", "G|a")
+	tseq("R", "G|x", "A|300", "G|y", "R", "G|x", "G|y", "A|150", "G|x", "A|151", "R", "G|y")
+	for k := 0; k < c.Scale(60, 1000); k++ {
+		var ops []string
+		for i := 0; i < 4+r.Intn(16); i++ {
+			switch x := r.Intn(10); {
+			case x < 6:
+				ops = append(ops, "G|"+[]string{"a", "b", "c", "d"}[r.Intn(4)])
+			case x < 8:
+				ops = append(ops, "A|"+strconv.Itoa([]int{0, 1, 149, 150, 299, 300, 301, 600}[r.Intn(8)]))
+			default:
+				ops = append(ops, "R")
+			}
+		}
+		tseq(ops...)
+	}
+	for _, sc := range []string{"dns", "dns-size1", "dns-long-lived", "fetch", "transport", "transport-fresh", "event"} {
 		for k := 0; k < c.Scale(1, 6); k++ {
-			c.Run("C19.stress", Args(sc, strconv.Itoa(int(c.Seed)+k)), "C19.const_ok", "", "stress "+sc)
+			c.Run("C19.stress", Args(sc, strconv.Itoa(int(c.Seed)+k)), "C19.const_ok", "C19.prop.invariants_held", "stress "+sc)
 			c.Count("stress." + sc)
 		}
 	}
 	// the same scenarios under the race detector
 	for _, sc := range []string{"dns", "fetch", "transport", "event"} {
-		c.Run("C19.race", Args(sc), "C19.const_ok", "", "race detector "+sc)
+		c.Run("C19.race", Args(sc), "C19.const_ok", "C19.prop.invariants_held", "race detector "+sc)
 		c.Count("race." + sc)
 	}
 }
